@@ -4,6 +4,7 @@ CONSTANTS
   MaxName1 = 1
   MaxName2 = 1
   Unconditional = FALSE
+  M_KeyIsSourceId = TRUE
   M_NamesVerbatim = TRUE
   M_ZeroOffsetsWritten = FALSE
 INVARIANTS R_RoundTrip
